@@ -356,7 +356,7 @@ func checkHMSHandler(c *an.Check, h *ssa.Function, pkg string, kinds []string) {
 
 func init() {
 	register(&Def{ID: "C34", Run: c34,
-		Explain:     "Decides on SSA for every function that filters link.HandleMountedStream directives (discovered by type: takes the directive interface, calls HandleMountedStreamProtocolID, returns ([]directive.Resolver, error); the 7 anchored handlers + the CLI pipe listener must be among them): a non-nil resolver result is returned only on paths that crossed the equality edge (sticky mark, so loop/flag idioms are followed) of a comparison between the directive's protocol ID / local peer / remote peer and a configuration value that does not depend on the directive — or slices.Contains / a constant strings.HasPrefix on it is true — or the very configuration value it is compared against is known empty (the 'not configured' wildcard). Which of the three gates each handler must have is a table confirmed by reading.",
+		Explain:     "Decides on SSA for every function that filters link.HandleMountedStream directives (discovered by type: takes the directive interface, calls HandleMountedStreamProtocolID, returns ([]directive.Resolver, error); the 7 anchored handlers + the CLI pipe listener must be among them): a non-nil resolver result is returned only on paths that crossed the equality edge (sticky mark, so loop/flag idioms are followed) of a comparison between the directive's protocol ID / local peer / remote peer and a configuration value that does not depend on the directive — or slices.Contains / a constant strings.HasPrefix on it is true — or the very configuration value it is compared against is known empty (the 'not configured' wildcard). Which of the three gates each handler must have is a table confirmed by reading. (GATE) srpc server defaults are added only when no protocol ids are configured; (EQUIV) Config.EqualsConfig of the stream-handler controllers is whole-message equality.",
 		NotCov:      "what the configured values are at run time, and the behaviour of the controller bus in choosing among offered resolvers.",
 		Assumptions: commonAssumptions})
 }
